@@ -352,3 +352,13 @@ def can_fall_through(s) -> bool:
 
 def name_of(node) -> str:
     return ast.unparse(node)
+
+
+def arm_tests(func_node, target):
+    """Tests of the `if`/`elif` arms whose *body* contains target (outermost first)."""
+    out = []
+    for lst, i in enclosing_chain(func_node, target):
+        s = lst[i]
+        if isinstance(s, ast.If) and any(any(x is target for x in ast.walk(b)) for b in s.body):
+            out.append(s.test)
+    return out
